@@ -69,6 +69,7 @@ class InMemoryMessageBroker(MessageBrokerT):
             if msg.key.id_ == key.id_:
                 q.processing.remove(msg)
                 q.taken_by.pop(key.id_, None)
+                q.taken_from.pop(key.id_, None)
                 break
 
         await asyncio.sleep(0)
@@ -82,6 +83,7 @@ class InMemoryMessageBroker(MessageBrokerT):
             if msg.key.id_ == key.id_:
                 q.processing.remove(msg)
                 q.taken_by.pop(key.id_, None)
+                q.taken_from.pop(key.id_, None)
                 q.dead.append(msg)
                 break
 
@@ -103,6 +105,7 @@ class InMemoryMessageBroker(MessageBrokerT):
             if msg.key.id_ == key.id_:
                 q.processing.remove(msg)
                 q.taken_by.pop(key.id_, None)
+                q.taken_from.pop(key.id_, None)
                 break
 
         delay: datetime | None = wait_until(params)
@@ -136,6 +139,7 @@ class InMemoryMessageBroker(MessageBrokerT):
             q.dead.clear()
             q.processing.clear()
             q.taken_by.clear()
+            q.taken_from.clear()
 
         await asyncio.sleep(0)
 
